@@ -200,7 +200,7 @@ impl Check for C16 {
         true
     }
     fn units(&self, tier: Tier) -> Vec<Unit> {
-        vec![Unit::gen("pipe", 16, tier.pick(60, 2000)), Unit::enumerate("devfull", 2)]
+        vec![Unit::gen("pipe", 16, tier.pick(400, 4000)), Unit::enumerate("devfull", 2)]
     }
     fn required_classes(&self, _tier: Tier) -> Vec<&'static str> {
         vec![
